@@ -111,6 +111,13 @@ def run_config(c, cfg):
             from bioscrape.simulator import py_simulate_model
             model.py_initialize()
             py_simulate_model(np.array(TIMES['u5']), Model=model, stochastic=True, delay=True, return_dataframe=False)
+            # a rejected edit in between (a delay whose parameter is a species): whatever it leaves behind must not matter
+            try:
+                model.create_reaction(['B'], ['A'], 'massaction', {'k': 0.9}, 'fixed', ['A'], ['C', 'C'], {'delay': 'A'})
+            except Exception:
+                pass
+            else:
+                raise RuntimeError('harness: a delay parameter that names a species was accepted')
             model.create_reaction(*reaction_tuple(sp['reactions'][-1]))
         impl = e1.Impl(first, cfg['safe'], prepare=prepare)
         impl.spec = sp
